@@ -1,6 +1,6 @@
 """C12 AES generators and fingerprint match FIPS-197 rounds in software and hardware."""
 import astq
-from rules import aes, aeshw
+from rules import aes, aeshw, portable
 
 LEVEL = 'other'
 TECHNIQUE = ('proof by byte-wise decomposition of the table-driven round against FIPS-197 computed from first principles (16 x 256 contributions per function, exhaustive), structural extraction of per-lane round patterns compared with the lane diagrams and hex keys of the specification; evaluation of the address-arithmetic slice of the AES loops; symbolic normal form of the hardware-AES wrappers under the architectural meaning of the NEON intrinsics; lane-accessor agreement across four configurations'
@@ -11,10 +11,11 @@ CLAIM = ('Decides statically: (1) soft_aesenc / soft_aesdec compute exactly the 
          'patterns of its two components, reads each block before overwriting it, covers exactly the buffer and writes the fill state back; (5) aesenc<>/aesdec<> select the encrypt/decrypt primitive of the right flavour; '
          'the x86 hard-AES JIT fragment has the interpreter\'s F/E mix order. The hardware AES instructions themselves are trusted ISA.'
          ' Also: (6) for every size that is a multiple of 64 each of the four AES functions touches exactly the blocks of its buffer once, in ascending order, the fused one reading before writing (AES-COVER, evaluated on the address-arithmetic slice for sizes around the 4096-byte prefetch distance); (7) the 32-bit lane accessors number lanes identically in the SSE2, SSE4.1/AVX2 (x86-64-v3), NEON and generic configurations (AES-LANES); (8) the AArch64 hardware wrappers normalise to MixColumns(SubBytes(ShiftRows(a))) ^ key with the key added last (AES-HW-WRAP); (9) every instruction-set macro that selects code is an analysed axis or declared unanalysed (CFG-COVER).'
-         ' (10) no value derived from the size parameter loses bits on its way to the loop bound and no counter narrower than the bound is compared with it, so sizes of 4 GiB and more are processed whole (AES-WIDTH); (11) the RVV software-AES kernels are called only when the CPU reports a vector length of at least what their intrinsic calls need (RVV-VLEN; the kernels themselves are intrinsics code outside the analysed configurations).')
+         ' (10) no value derived from the size parameter loses bits on its way to the loop bound and no counter narrower than the bound is compared with it, so sizes of 4 GiB and more are processed whole (AES-WIDTH); (11) the RVV software-AES kernels are called only when the CPU reports a vector length of at least what their intrinsic calls need (RVV-VLEN; the kernels themselves are intrinsics code outside the analysed configurations).'
+         ' (12) on a big-endian target the vector load / store wrappers through which the generators and the fingerprint read and write their 16-byte blocks keep the little-endian lane image (PORT-ENDIAN, byte-accurate evaluation on a big-endian cross parse).')
 LEVEL_NOTE = 'Trusted: clang AST; AES-NI / ARMv8 AES instruction semantics; the lane numbering of _mm_set_epi32 / _mm_shuffle_epi32 (checked by constant, not re-derived).'
 EXPLANATION = ('AES-ROUND + AES-TTABLE (2 x 4096 contributions, 2048 words), SPEC-AESKEYS (18 constants x 2 flavours), SPEC-AESPATTERN, AES-FUSED, AES-SWITCH, AES-ASM. AES-COVER, AES-LANES (K0/K4/K2/K1), AES-HW-WRAP (K2), CFG-COVER.'
-         ' AES-WIDTH, RVV-VLEN.')
+         ' AES-WIDTH, RVV-VLEN. PORT-ENDIAN (K6).')
 
 
 def run(ctx, R):
@@ -30,3 +31,4 @@ def run(ctx, R):
     aeshw.rule_hw_wrap(ctx, R)
     aeshw.rule_cfg_cover(ctx, R)
     aeshw.rule_rvv_vlen(ctx, R)
+    portable.rule_endian(ctx, R)
